@@ -83,6 +83,14 @@ Proof.
   split; apply N.eqb_neq; apply negb_true_iff; assumption.
 Qed.
 
+Lemma up_vals_ascii : forallb (fun kv : N * N => snd kv <? 128) upper_ascii_tab = true.
+Proof. vm_compute. reflexivity. Qed.
+Lemma up_ascii : forall x u, upper x = Some u -> u < 128.
+Proof.
+  intros x u H. apply assoc_in in H. pose proof up_vals_ascii as T. rewrite forallb_forall in T. specialize (T _ H).
+  cbn [snd] in T. apply N.ltb_lt. exact T.
+Qed.
+
 (* the keyword table holds upper-case ASCII letters only (so that a converted keyword is a fixed point) *)
 Lemma keywords_upper : forallb (forallb (fun b => (65 <=? b) && (b <=? 90))) keywords_tab = true.
 Proof. vm_compute. reflexivity. Qed.
